@@ -371,3 +371,390 @@ Proof.
   destruct (dec_sub_next_fill C (sort_desc id vs) ([], empty_bin) wf_bin_empty) as (H1 & _ & _).
   exact H1.
 Qed.
+
+(** ---- twothirds = bidirectional filling ---- *)
+
+Lemma unsnoc_snoc {T} (r : list T) y : unsnoc (r ++ [y]) = Some (r, y).
+Proof. unfold unsnoc. rewrite rev_app_distr. cbn [rev app]. rewrite rev_involutive. reflexivity. Qed.
+
+Lemma unsnoc_nil {T} : unsnoc (@nil T) = None.
+Proof. reflexivity. Qed.
+
+Lemma snoc_cases {T} (l : list T) : l = [] \/ exists r y, l = r ++ [y].
+Proof.
+  induction l as [|y r _] using rev_ind; [left; reflexivity|right]. exists r, y. reflexivity.
+Qed.
+
+Lemma snoc_length {T} (r : list T) y : length (r ++ [y]) = S (length r).
+Proof. rewrite app_length. cbn [length]. lia. Qed.
+
+Lemma ffr_nil f C cur : fill_from_right f C cur [] = (cur, []).
+Proof. destruct f as [|f]; cbn [fill_from_right rev]; [reflexivity|]. destruct (zsum cur <? C); reflexivity. Qed.
+
+Lemma ffr_snoc f C cur r y :
+  fill_from_right (S f) C cur (r ++ [y]) =
+  if zsum cur <? C then fill_from_right f C (cur ++ [y]) r else (cur, r ++ [y]).
+Proof.
+  cbn [fill_from_right]. rewrite rev_app_distr. cbn [rev app]. rewrite rev_involutive. reflexivity.
+Qed.
+
+Lemma ffr_full f C cur rem : C <= zsum cur -> fill_from_right f C cur rem = (cur, rem).
+Proof.
+  intros H. destruct f as [|f]; cbn [fill_from_right]; [reflexivity|].
+  destruct (zsum cur <? C) eqn:E; [lia|reflexivity].
+Qed.
+
+Lemma ffr_fuel C rem : forall cur f, (length rem <= f)%nat ->
+  fill_from_right f C cur rem = fill_from_right (length rem) C cur rem.
+Proof.
+  induction rem as [|y r IH] using rev_ind; intros cur f Hf.
+  - rewrite !ffr_nil. reflexivity.
+  - rewrite snoc_length in *. destruct f as [|f]; [lia|]. rewrite !ffr_snoc.
+    destruct (zsum cur <? C); [|reflexivity]. apply IH. lia.
+Qed.
+
+Lemma ffr_length C rem : forall cur f,
+  (length (snd (fill_from_right f C cur rem)) <= length rem)%nat.
+Proof.
+  induction rem as [|y r IH] using rev_ind; intros cur f.
+  - rewrite ffr_nil. cbn [snd length]. lia.
+  - destruct f as [|f]; [cbn [fill_from_right snd]; lia|]. rewrite ffr_snoc.
+    destruct (zsum cur <? C); [|cbn [snd]; lia].
+    specialize (IH (cur ++ [y]) f). rewrite snoc_length. lia.
+Qed.
+
+Lemma bidir_nil F C : bidirectional F C [] = [].
+Proof. destruct F; reflexivity. Qed.
+
+Lemma bidir_fuel2 C : forall F1 F2 rem, (length rem <= F1)%nat -> (length rem <= F2)%nat ->
+  bidirectional F1 C rem = bidirectional F2 C rem.
+Proof.
+  induction F1 as [|F1 IH]; intros F2 rem H1 H2.
+  - destruct rem; [|cbn [length] in H1; lia]. rewrite !bidir_nil. reflexivity.
+  - destruct rem as [|x t]; [rewrite !bidir_nil; reflexivity|].
+    destruct F2 as [|F2]; [cbn [length] in H2; lia|]. cbn [bidirectional]. cbn [length] in H1, H2.
+    pose proof (ffr_length C t [x] (length t)) as Hl.
+    destruct (fill_from_right (length t) C [x] t) as [cur rem']. cbn [snd] in Hl.
+    destruct (C <=? zsum cur); [|reflexivity]. f_equal. apply IH; lia.
+Qed.
+
+Lemma bidir_fuel C F rem : (length rem <= F)%nat ->
+  bidirectional F C rem = bidirectional (length rem) C rem.
+Proof. intros H. apply bidir_fuel2; lia. Qed.
+
+(** what remains to be produced when the open bin holds [cur] and [rem] is left *)
+Definition tt_spec (C : Z) (cur rem : list Z) : vbins :=
+  let '(cur', rem') := fill_from_right (length rem) C cur rem in
+  if C <=? zsum cur' then cur' :: bidirectional (length rem') C rem' else [].
+
+Lemma tt_spec_nil C cur : zsum cur < C -> tt_spec C cur [] = [].
+Proof.
+  intros H. unfold tt_spec. rewrite ffr_nil. destruct (C <=? zsum cur) eqn:E; [lia|reflexivity].
+Qed.
+
+Lemma tt_spec_full C cur rem : C <= zsum cur ->
+  tt_spec C cur rem = cur :: bidirectional (length rem) C rem.
+Proof.
+  intros H. unfold tt_spec. rewrite ffr_full by exact H.
+  destruct (C <=? zsum cur) eqn:E; [reflexivity|lia].
+Qed.
+
+Lemma tt_spec_snoc C cur r y : zsum cur < C -> tt_spec C cur (r ++ [y]) = tt_spec C (cur ++ [y]) r.
+Proof.
+  intros H. unfold tt_spec. rewrite snoc_length, ffr_snoc.
+  destruct (zsum cur <? C) eqn:E; [reflexivity|lia].
+Qed.
+
+Lemma bidir_cons C x t : bidirectional (S (length t)) C (x :: t) = tt_spec C [x] t.
+Proof.
+  cbn [bidirectional]. unfold tt_spec.
+  pose proof (ffr_length C t [x] (length t)) as Hl.
+  destruct (fill_from_right (length t) C [x] t) as [cur rem']. cbn [snd] in Hl.
+  destruct (C <=? zsum cur); [|reflexivity]. f_equal. apply bidir_fuel. exact Hl.
+Qed.
+
+(** one step of the model's loop, in terms of [cover_add] *)
+Lemma tt_loop_step f C (st : cst) fresh x t :
+  tt_loop id true (S f) C st fresh (x :: t) =
+  if fresh then
+    tt_loop id true f C (cover_add id true C st x) (C <=? fst (snd st) + x) t
+  else
+    match unsnoc (x :: t) with
+    | None => st
+    | Some (r, y) => tt_loop id true f C (cover_add id true C st y) (C <=? fst (snd st) + y) r
+    end.
+Proof.
+  cbn [tt_loop]. cbv zeta. destruct fresh.
+  - rewrite cover_add_eq, add_to_bin_fst, Z.geb_leb. destruct (C <=? fst (snd st) + x); reflexivity.
+  - destruct (unsnoc (x :: t)) as [[r y]|]; [|reflexivity].
+    rewrite cover_add_eq, add_to_bin_fst, Z.geb_leb. destruct (C <=? fst (snd st) + y); reflexivity.
+Qed.
+
+Lemma tt_loop_nil f C (st : cst) fresh : tt_loop id true f C st fresh [] = st.
+Proof. destruct f; reflexivity. Qed.
+
+Lemma tt_loop_spec C : forall f (st : cst) fresh rem, (length rem <= f)%nat ->
+  wf_bin id (snd st) ->
+  (fresh = true -> snd st = empty_bin) -> (fresh = false -> fst (snd st) < C) ->
+  lists (fst (tt_loop id true f C st fresh rem)) =
+  lists (fst st) ++ (if fresh then bidirectional (length rem) C rem else tt_spec C (snd (snd st)) rem).
+Proof.
+  induction f as [|f IH]; intros st fresh rem Hlen Hwf Hfresh Hopen.
+  - destruct rem; [|cbn [length] in Hlen; lia]. rewrite tt_loop_nil. destruct fresh.
+    + rewrite bidir_nil, app_nil_r. reflexivity.
+    + rewrite tt_spec_nil, app_nil_r; [reflexivity|]. apply wf_bin_id in Hwf.
+      rewrite <- Hwf. auto.
+  - destruct rem as [|x t].
+    { rewrite tt_loop_nil. destruct fresh.
+      + rewrite bidir_nil, app_nil_r. reflexivity.
+      + rewrite tt_spec_nil, app_nil_r; [reflexivity|]. apply wf_bin_id in Hwf.
+        rewrite <- Hwf. auto. }
+    rewrite tt_loop_step. destruct fresh.
+    + (* a fresh bin: the head (largest) item *)
+      destruct st as [bs cur]. cbn [fst snd] in *.
+      pose proof (Hfresh eq_refl) as Hc. subst cur. cbn [length] in Hlen.
+      change (length (x :: t)) with (S (length t)).
+      rewrite bidir_cons, cover_add_eq. cbn [fst snd].
+      change (fst (@empty_bin Z)) with 0.
+      destruct (C <=? 0 + x) eqn:E.
+      * rewrite IH; cbn [fst snd]; auto; try lia; try discriminate; try exact wf_bin_empty.
+        rewrite lists_app, <- app_assoc. cbn [lists map app].
+        rewrite tt_spec_full; [reflexivity|]. cbn [zsum fold_right]. lia.
+      * rewrite IH; cbn [fst snd]; auto; try lia; try discriminate; try exact wf_bin_empty.
+        -- apply wf_bin_add. exact wf_bin_empty.
+        -- intros _. rewrite add_to_bin_fst. change (fst (@empty_bin Z)) with 0. lia.
+    + (* an open bin: the last (smallest) item *)
+      destruct (snoc_cases (x :: t)) as [E0|(r & y & E0)]; [discriminate E0|].
+      rewrite E0 in *. rewrite snoc_length in Hlen. rewrite unsnoc_snoc.
+      specialize (Hopen eq_refl). pose proof Hwf as Hs. apply wf_bin_id in Hs.
+      rewrite tt_spec_snoc by lia. rewrite cover_add_eq.
+      destruct (C <=? fst (snd st) + y) eqn:E.
+      * rewrite IH; cbn [fst snd]; auto; try lia; try discriminate; try exact wf_bin_empty.
+        rewrite lists_app, <- app_assoc. cbn [lists map app]. rewrite add_to_bin_snd.
+        rewrite tt_spec_full; [reflexivity|]. rewrite wf_bin_sum by exact Hwf. lia.
+      * rewrite IH; cbn [fst snd]; auto; try lia; try discriminate; try exact wf_bin_empty.
+        -- apply wf_bin_add. exact Hwf.
+        -- intros _. rewrite add_to_bin_fst. lia.
+Qed.
+
+(** no positivity hypothesis is needed *)
+Theorem tt_refines_rule_gen : forall C vs, twothirds_rule C vs (lists (cover_twothirds id true C vs)).
+Proof.
+  intros C vs. exists (sort_desc id vs). split; [apply sort_desc_perm|].
+  split; [apply sort_desc_nonincreasing|]. unfold cover_twothirds.
+  rewrite tt_loop_spec; cbn [fst snd]; auto.
+  - rewrite sort_desc_length. reflexivity.
+  - exact wf_bin_empty.
+  - discriminate.
+Qed.
+
+Theorem tt_refines_rule : forall C vs, 0 < C -> Forall (fun v => 0 < v) vs ->
+  twothirds_rule C vs (lists (cover_twothirds id true C vs)).
+Proof. intros C vs _ _. apply tt_refines_rule_gen. Qed.
+
+(** ---- threequarters = three-class filling ---- *)
+
+Lemma fill_small_ffr C : forall f (cur : bin Z) small, wf_bin id cur ->
+  fill_from_right f C (snd cur) small =
+    (snd (fst (fill_small id true f C cur small)), snd (fill_small id true f C cur small)) /\
+  wf_bin id (fst (fill_small id true f C cur small)).
+Proof.
+  induction f as [|f IH]; intros cur small Hwf; cbn [fill_small fill_from_right].
+  - cbn [fst snd]. auto.
+  - pose proof Hwf as Hs. apply wf_bin_id in Hs. rewrite <- Hs.
+    destruct (fst cur <? C); [|cbn [fst snd]; auto].
+    destruct (snoc_cases small) as [E|(r & y & E)]; subst small.
+    + rewrite unsnoc_nil. cbn [rev fst snd]. auto.
+    + rewrite unsnoc_snoc, rev_app_distr. cbn [rev app]. rewrite rev_involutive.
+      rewrite <- add_to_bin_snd. apply IH. apply wf_bin_add. exact Hwf.
+Qed.
+
+Lemma fold_add_snd l : forall c : bin Z, wf_bin id c ->
+  snd (fold_left (fun c x => add_to_bin id true x c) l c) = snd c ++ l /\
+  wf_bin id (fold_left (fun c x => add_to_bin id true x c) l c).
+Proof.
+  induction l as [|x t IH]; intros c Hwf; cbn [fold_left].
+  - rewrite app_nil_r. auto.
+  - destruct (IH (add_to_bin id true x c) (wf_bin_add x c Hwf)) as [H1 H2].
+    rewrite H1, add_to_bin_snd, <- app_assoc. auto.
+Qed.
+
+Definition is_nil {T} (l : list T) : bool := match l with [] => true | _ => false end.
+
+(** the start of an iteration of the main loop: model and rule side *)
+Definition tq_pick (cur : bin Z) (big medium : list Z) : bin Z * list Z * list Z :=
+  if zsum (map id (firstn 1 big)) >=? zsum (map id (firstn 2 medium))
+  then (fold_left (fun c x => add_to_bin id true x c) (firstn 1 big) cur, skipn 1 big, medium)
+  else (fold_left (fun c x => add_to_bin id true x c) (firstn 2 medium) cur, big, skipn 2 medium).
+
+Definition tc_pick (X Y : list Z) : list Z * list Z * list Z :=
+  if zsum (firstn 2 Y) <=? zsum (firstn 1 X) then (firstn 1 X, skipn 1 X, Y)
+  else (firstn 2 Y, X, skipn 2 Y).
+
+Lemma tq_loop_unfold f C (st : cst) big medium small :
+  tq_loop id true (S f) C st big medium small =
+  match small with
+  | [] => dec_sub id true C (dec_sub id true C st big) medium
+  | _ :: _ =>
+      if is_nil big && is_nil medium then dec_sub id true C st small
+      else
+        let '(cur0, big', medium') := tq_pick (snd st) big medium in
+        let '(cur1, small') := fill_small id true (length small) C cur0 small in
+        if fst cur1 >=? C then tq_loop id true f C (fst st ++ [cur1], empty_bin) big' medium' small'
+        else tq_loop id true f C (fst st, cur1) big' medium' small'
+  end.
+Proof. destruct small, big, medium; reflexivity. Qed.
+
+Lemma three_class_unfold f C cur X Y Zs :
+  three_class (S f) C cur X Y Zs =
+  match Zs with
+  | [] => let '(b1, cur1) := next_fill C X cur in
+          let '(b2, _) := next_fill C Y cur1 in b1 ++ b2
+  | _ :: _ =>
+      if is_nil X && is_nil Y then fst (next_fill C Zs cur)
+      else
+        let '(start, X', Y') := tc_pick X Y in
+        let '(cur1, Zs') := fill_from_right (length Zs) C (cur ++ start) Zs in
+        if C <=? zsum cur1 then cur1 :: three_class f C [] X' Y' Zs'
+        else three_class f C cur1 X' Y' Zs'
+  end.
+Proof. destruct Zs, X, Y; reflexivity. Qed.
+
+Lemma tq_pick_tc_pick (cur : bin Z) big medium : wf_bin id cur ->
+  snd (fst (fst (tq_pick cur big medium))) = snd cur ++ fst (fst (tc_pick big medium)) /\
+  snd (fst (tq_pick cur big medium)) = snd (fst (tc_pick big medium)) /\
+  snd (tq_pick cur big medium) = snd (tc_pick big medium) /\
+  wf_bin id (fst (fst (tq_pick cur big medium))).
+Proof.
+  intros Hwf. unfold tq_pick, tc_pick. rewrite !map_id', Z.geb_leb.
+  destruct (zsum (firstn 2 medium) <=? zsum (firstn 1 big)); cbn [fst snd].
+  - destruct (fold_add_snd (firstn 1 big) cur Hwf) as [H1 H2]. auto.
+  - destruct (fold_add_snd (firstn 2 medium) cur Hwf) as [H1 H2]. auto.
+Qed.
+
+Lemma tq_loop_spec C : forall f (st : cst) big medium small, wf_bin id (snd st) ->
+  lists (fst (tq_loop id true f C st big medium small)) =
+  lists (fst st) ++ three_class f C (snd (snd st)) big medium small.
+Proof.
+  induction f as [|f IH]; intros st big medium small Hwf.
+  - cbn [tq_loop three_class]. rewrite app_nil_r. reflexivity.
+  - rewrite tq_loop_unfold, three_class_unfold. destruct small as [|z zs].
+    + destruct (dec_sub_next_fill C big st Hwf) as (H1 & H2 & H3).
+      destruct (dec_sub_next_fill C medium (dec_sub id true C st big) H3) as (H4 & _ & _).
+      rewrite H4, H1, H2. destruct (next_fill C big (snd (snd st))) as [b1 cur1]. cbn [fst snd].
+      destruct (next_fill C medium cur1) as [b2 l2]. cbn [fst]. rewrite app_assoc. reflexivity.
+    + destruct (is_nil big && is_nil medium).
+      { destruct (dec_sub_next_fill C (z :: zs) st Hwf) as (H1 & _ & _). exact H1. }
+      destruct (tq_pick_tc_pick (snd st) big medium Hwf) as (P1 & P2 & P3 & P4).
+      destruct (tq_pick (snd st) big medium) as [[cur0 big'] medium'].
+      destruct (tc_pick big medium) as [[start X'] Y']. cbn [fst snd] in P1, P2, P3, P4.
+      subst X' Y'.
+      destruct (fill_small_ffr C (length (z :: zs)) cur0 (z :: zs) P4) as [F1 F2].
+      rewrite <- P1, F1.
+      destruct (fill_small id true (length (z :: zs)) C cur0 (z :: zs)) as [cur1 small'].
+      cbn [fst snd] in *. pose proof F2 as Hs. apply wf_bin_id in Hs.
+      rewrite Z.geb_leb, <- Hs. destruct (C <=? fst cur1).
+      * rewrite IH by exact wf_bin_empty. cbn [fst snd]. change (snd (@empty_bin Z)) with (@nil Z).
+        rewrite lists_app, <- app_assoc. reflexivity.
+      * rewrite IH by exact F2. reflexivity.
+Qed.
+
+(** no positivity hypothesis is needed *)
+Theorem tq_refines_rule_gen : forall C vs,
+  threequarters_rule C vs (lists (cover_threequarters id true C vs)).
+Proof.
+  intros C vs. exists (sort_desc id vs). split; [apply sort_desc_perm|].
+  split; [apply sort_desc_nonincreasing|]. unfold cover_threequarters. cbv zeta.
+  rewrite tq_loop_spec by exact wf_bin_empty. rewrite sort_desc_length. reflexivity.
+Qed.
+
+Theorem tq_refines_rule : forall C vs, 0 < C -> Forall (fun v => 0 < v) vs ->
+  threequarters_rule C vs (lists (cover_threequarters id true C vs)).
+Proof. intros C vs _ _. apply tq_refines_rule_gen. Qed.
+
+(** ---- round-robin = cyclic dealing ---- *)
+
+(** how many items bin [j] still has to skip when the cursor stands at [r] *)
+Definition off (k r j : nat) : nat := if (r <=? j)%nat then (j - r)%nat else (j + k - r)%nat.
+
+Lemma rr_next r k : (r < k)%nat -> Nat.modulo (S r) k = if (S r =? k)%nat then O else S r.
+Proof.
+  intros H. destruct (Nat.eqb_spec (S r) k) as [E|E].
+  - rewrite E. apply Nat.mod_same. lia.
+  - apply Nat.mod_small. lia.
+Qed.
+
+Lemma off_step k r j : (r < k)%nat -> (j < k)%nat ->
+  (j = r /\ off k r j = O /\ off k (Nat.modulo (S r) k) j = (k - 1)%nat) \/
+  (j <> r /\ off k r j = S (off k (Nat.modulo (S r) k) j)).
+Proof.
+  intros Hr Hj. rewrite rr_next by exact Hr. unfold off.
+  destruct (Nat.eqb_spec (S r) k) as [E|E];
+    destruct (Nat.leb_spec r j) as [L1|L1];
+    match goal with |- context [(?a <=? j)%nat] => destruct (Nat.leb_spec a j) as [L2|L2] end; lia.
+Qed.
+
+Lemma every_kth_nil k s : every_kth k s [] = [].
+Proof. reflexivity. Qed.
+
+Lemma range_from_length n : forall i, length (range_from i n) = n.
+Proof. induction n as [|n IH]; intros i; cbn [range_from length]; [reflexivity|]. rewrite IH. reflexivity. Qed.
+
+Lemma range_from_nth n : forall i j d, (j < n)%nat -> nth j (range_from i n) d = (i + j)%nat.
+Proof.
+  induction n as [|n IH]; intros i j d Hj; [lia|]. cbn [range_from]. destruct j as [|j]; cbn [nth].
+  - lia.
+  - rewrite IH by lia. lia.
+Qed.
+
+Lemma deal_length k l : length (deal k l) = k.
+Proof. unfold deal, range. rewrite map_length. apply range_from_length. Qed.
+
+Lemma deal_nth k l j : (j < k)%nat -> nth j (deal k l) [] = every_kth k j l.
+Proof.
+  intros Hj. unfold deal.
+  rewrite nth_indep with (d' := (fun j => every_kth k j l) O).
+  - rewrite map_nth. unfold range. rewrite range_from_nth by exact Hj. reflexivity.
+  - rewrite map_length. unfold range. rewrite range_from_length. exact Hj.
+Qed.
+
+Lemma put_nth i v (b : vbins) j : (i < length b)%nat ->
+  nth j (put i v b) [] = if (j =? i)%nat then nth j b [] ++ [v] else nth j b [].
+Proof.
+  intros Hi. unfold put. destruct (Nat.eqb_spec j i) as [E|E].
+  - subst j. apply update_nth_same. exact Hi.
+  - apply update_nth_other. auto.
+Qed.
+
+Lemma rr_loop_deal k l : forall r (b : bins Z), (r < k)%nat -> length b = k ->
+  length (rr_loop id true k l r b) = k /\
+  forall j, (j < k)%nat ->
+    nth j (lists (rr_loop id true k l r b)) [] = nth j (lists b) [] ++ every_kth k (off k r j) l.
+Proof.
+  induction l as [|x t IH]; intros r b Hr Hlen; cbn [rr_loop].
+  - split; [exact Hlen|]. intros j Hj. rewrite every_kth_nil, app_nil_r. reflexivity.
+  - assert (Hr' : (Nat.modulo (S r) k < k)%nat) by (apply Nat.mod_upper_bound; lia).
+    destruct (IH (Nat.modulo (S r) k) (add_item id true b x r) Hr') as [H1 H2].
+    { rewrite add_item_length. exact Hlen. }
+    split; [exact H1|]. intros j Hj. rewrite (H2 j Hj), lists_add_item.
+    rewrite put_nth by (rewrite lists_length; lia).
+    destruct (off_step k r j Hr Hj) as [(E1 & E2 & E3)|(E1 & E2)].
+    + subst j. rewrite Nat.eqb_refl, E2, E3. cbn [every_kth]. rewrite <- app_assoc. reflexivity.
+    + destruct (Nat.eqb_spec j r) as [E|_]; [contradiction|]. rewrite E2. reflexivity.
+Qed.
+
+Lemma nth_repeat_nil {T} k j : nth j (repeat (@nil T) k) [] = [].
+Proof. revert j. induction k as [|k IH]; intros [|j]; cbn [repeat nth]; auto. Qed.
+
+Theorem roundrobin_refines_rr : forall k vs, (1 <= k)%nat -> rr_rule k vs (lists (roundrobin id true k vs)).
+Proof.
+  intros k vs Hk. exists (sort_desc id vs). split; [apply sort_desc_perm|].
+  split; [apply sort_desc_nonincreasing|]. unfold roundrobin.
+  destruct (rr_loop_deal k (sort_desc id vs) O (new_bins k)) as [H1 H2];
+    [lia|apply new_bins_length|].
+  apply nth_ext with (d := []) (d' := []).
+  - rewrite lists_length, deal_length. exact H1.
+  - rewrite lists_length, H1. intros j Hj. rewrite (H2 j Hj), deal_nth by exact Hj.
+    rewrite lists_new_bins, nth_repeat_nil. cbn [app]. unfold off.
+    destruct (Nat.leb_spec O j) as [L|L]; [|lia]. f_equal. lia.
+Qed.
